@@ -171,8 +171,18 @@ class Program:
                 wrn = [str(x.message)[:60] for x in w]
         except Exception as e:
             exc = type(e).__name__
+        plain = None
+        if exc and name == "merge":
+            # what pandas alone makes of it: a refusal, or a frame no table can carry (repeated labels)
+            try:
+                with warnings.catch_warnings():
+                    warnings.simplefilter("ignore")
+                    r = pd.DataFrame(a).merge(pd.DataFrame(b), left_index=True, right_index=True, suffixes=("", "_r"))
+                plain = "duplicate-labels" if bool(r.columns.duplicated().any()) else "ok"
+            except Exception as e2:
+                plain = "raised:" + type(e2).__name__
         self.flush_events()
-        rec = {"op": name, "exc": exc, "conflict_possible": any(a[c].dtype.kind in "if" and dict(view(a)["units"]).get(str(c)) != "zz" for c in cols), "warned": any("Unable to establish table metadata" in x for x in wrn),
+        rec = {"op": name, "exc": exc, "plain": plain, "conflict_possible": any(a[c].dtype.kind in "if" and dict(view(a)["units"]).get(str(c)) != "zz" for c in cols), "warned": any("Unable to establish table metadata" in x for x in wrn),
                "is_table": isinstance(res, TableDataFrame) and hasattr(res, "_table_data"),
                "src_a": keys[op["a"] % len(keys)], "src_b": keys[op["b"] % len(keys)], "before": before}
         if rec["is_table"]:
@@ -247,10 +257,10 @@ class Program:
                 t.metadata.name = "mutated_name"
                 act = ["AMutate", k0, ["MSetName", "mutated_name"]]
             elif m == "delcol" and len(a.columns) >= 2:
-                c = str(a.columns[-1])
+                c = a.columns[-1]      # not necessarily a string (labels of a transposed frame)
                 del a[c]
                 t.units
-                act = ["AMutate", k0, ["MDelCol", c]]
+                act = ["AMutate", k0, ["MDelCol", str(c)]]
             elif m == "addcol" and "added_col" not in a.columns and len(a) > 0:
                 t.add_column("added_col", list(np.arange(len(a), dtype=float)), unit="kg")
                 act = ["AMutate", k0, ["MAddCol", "added_col", "kg"]]
@@ -404,7 +414,9 @@ class C05(Prop):
                     fails.append(f"refuse: concat of frames with conflicting units gave {rec['exc'] or 'a result'}")
                 continue
             if rec["exc"]:
-                if rec["exc"] not in ("ColumnUnitException", "InvalidTableCombineError"):
+                unrepresentable = (rec.get("plain") or "").startswith("raised:") or \
+                    (rec["exc"] == "InvalidNamingError" and rec.get("plain") == "duplicate-labels")
+                if rec["exc"] not in ("ColumnUnitException", "InvalidTableCombineError") and not unrepresentable:
                     fails.append(f"op-raised: pandas {op} raised {rec['exc']}")
                 continue
             if not rec["is_table"]:
